@@ -82,8 +82,8 @@ fn main() {
     };
     let ba = blocks(&ta);
     let bb = blocks(&tb);
-    rep.rule = format!("scenario grammar: subsets of size <= {} of 13 collector kinds (a custom collector handing over hand-built families: payload/type mismatches, histograms without optional fields, a summary; Counter, Counter with constant labels and Unicode help, Gauge, Histogram with explicit +Inf bound, PullingGauge, CounterVec, GaugeVec with constant label, two same-name counters, IntCounter, IntGaugeVec, HistogramVec with local flush) x every combination of 5 update scripts per member (<=3 updates incl. -0.0, NaN, inf, 1e300, 0.1+0.2, u64::MAX, i64::MIN; triples: a diagonal of the script space) x 5 registry configurations (prefix, 1-3 common labels sorting before/between/after the metrics' own labels) ; per scenario: register results, canonical bit-exact dump of gather(), TextEncoder string and bytes, unregister + second gather. The transcript of the protobuf-backed build must equal the transcript of the --no-default-features build. distinct = distinct scenario transcripts", max);
-    rep.bounds = json!({"subset_size": max, "kinds": 13, "scripts": 5, "configs": 5});
+    rep.rule = format!("scenario grammar: subsets of size <= {} of 14 collector kinds (a custom collector handing over hand-built families: payload/type mismatches, histograms without optional fields, a summary; Counter, Counter with constant labels and Unicode help, Gauge, Histogram with explicit +Inf bound, PullingGauge, CounterVec, GaugeVec with constant label, two same-name counters, IntCounter, IntGaugeVec, HistogramVec with local flush, histograms whose only bucket is +Inf observed or never observed) x every combination of 5 update scripts per member (<=3 updates incl. -0.0, NaN, inf, 1e300, 0.1+0.2, u64::MAX, i64::MIN; triples: a diagonal of the script space) x 5 registry configurations (prefix, 1-3 common labels sorting before/between/after the metrics' own labels) ; per scenario: register results, canonical bit-exact dump of gather(), TextEncoder string and bytes, unregister + second gather. The transcript of the protobuf-backed build must equal the transcript of the --no-default-features build. distinct = distinct scenario transcripts", max);
+    rep.bounds = json!({"subset_size": max, "kinds": 14, "scripts": 5, "configs": 5});
     rep.evaluations = (ba.len() + bb.len()) as u64;
     rep.states = ba.len() as u64;
     rep.transitions = (ba.len() * 8) as u64;
